@@ -58,6 +58,9 @@ def upperHexChar (c : UInt8) : UInt8 := if 97 ≤ c && c ≤ 102 then c - 32 els
 def lowerByte (c : UInt8) : UInt8 := if isUpper c then c + 32 else c
 def lower (s : Bytes) : Bytes := s.map lowerByte
 
+def hexDigitVal (c : UInt8) : Nat :=
+  if isDigit c then c.toNat - 48 else if 97 ≤ c && c ≤ 102 then c.toNat - 87 else c.toNat - 55
+
 /-- `isUnreservedChar`: A–Z a–z 0–9 - . _ ~ -/
 def isUnreserved (c : UInt8) : Bool :=
   isUpper c || isLower c || isDigit c || c == 45 || c == 46 || c == 95 || c == 126
@@ -160,6 +163,16 @@ def canonURILoop : Bytes → Bytes
       37 :: upperHexChar h1 :: upperHexChar h2 :: canonURILoop rest
     else emitURIByte c ++ canonURILoop (h1 :: h2 :: rest)
   | c :: rest => emitURIByte c ++ canonURILoop rest
+
+/-- percent-decoding of an escaped path (`url.PathUnescape` on a valid escaping): what the
+router sees as `r.URL.Path` -/
+def pctDecode : Bytes → Bytes
+  | [] => []
+  | c :: h1 :: h2 :: rest =>
+    if c == 37 && isHexChar h1 && isHexChar h2 then
+      UInt8.ofNat (hexDigitVal h1 * 16 + hexDigitVal h2) :: pctDecode rest
+    else c :: pctDecode (h1 :: h2 :: rest)
+  | c :: rest => c :: pctDecode rest
 
 /-- `generateCanonicalURI` -/
 def canonicalURI (escapedPath : Bytes) : Bytes :=
@@ -348,6 +361,13 @@ def daysFromCivil (y m d : Nat) : Int :=
   let doe : Int := yoe * 365 + yoe / 4 - yoe / 100 + doy
   era * 146097 + doe - 719468
 
+/-- `time.Parse` tolerates a fractional second after the seconds field even when the layout has
+none: `.` or `,` followed by digits is consumed. -/
+def skipFraction (rest : Bytes) : Bytes :=
+  match rest with
+  | p :: q :: more => if (p == 46 || p == 44) && isDigit q then (q :: more).dropWhile isDigit else rest
+  | _ => rest
+
 /-- Unix seconds of a timestamp accepted by `time.Parse("20060102T150405Z", ·)`; an optional
 fractional second (which `time.Parse` tolerates) is skipped, i.e. times are floored to seconds. -/
 def parseTimestamp (ts : Bytes) : Option Int :=
@@ -356,10 +376,7 @@ def parseTimestamp (ts : Bytes) : Option Int :=
     match num2 y1 y2, num2 y3 y4, num2 m1 m2, num2 d1 d2, num2 h1 h2, num2 n1 n2, num2 s1 s2 with
     | some ya, some yb, some mo, some dd, some hh, some mi, some ss =>
       let y := ya * 100 + yb
-      let rest' := match rest with
-        | p :: q :: more => if (p == 46 || p == 44) && isDigit q then (q :: more).dropWhile isDigit else rest
-        | _ => rest
-      if t != 84 || rest' != [90] then none
+      if t != 84 || skipFraction rest != [90] then none
       else if mo < 1 || mo > 12 || dd < 1 || dd > daysIn mo y || hh ≥ 24 || mi ≥ 60 || ss ≥ 60 then none
       else some (daysFromCivil y mo dd * 86400 + (hh * 3600 + mi * 60 + ss : Nat))
     | _, _, _, _, _, _, _ => none
